@@ -27,7 +27,7 @@ const header = `From Coq Require Import String.
 From V Require Import Lib.Base Lib.Hex Lib.Cbor C10.Model.
 Open Scope N_scope.`
 
-const waitTimeout = 20 * time.Second
+const waitTimeout = 10 * time.Second
 
 // ---------------------------------------------------------------------------
 // rx: scripted peer -> real readLoop
@@ -343,8 +343,17 @@ func doTx(c *vh.Ctx, cf *vh.CaseFile, tc *txCase) {
 			}
 		}
 	}()
-	done := srv.waitFor(len(msgs), false, waitTimeout+time.Duration(totalBytes/50000)*time.Second)
-	<-prodDone
+	done := srv.waitFor(len(msgs), false, waitTimeout+time.Duration(totalBytes/200000)*time.Second)
+	if !done {
+		// a stuck transfer leaves the producer blocked in SendMessage: stopping
+		// the protocols releases it
+		cli.stop()
+		srv.stop()
+	}
+	select {
+	case <-prodDone:
+	case <-time.After(waitTimeout):
+	}
 	cli.pollErr()
 	srv.pollErr()
 	got := srv.snapshot()
